@@ -251,6 +251,631 @@ fn part_commit_bump(ctx: &Ctx) -> u64 {
     n.load(AO::Relaxed)
 }
 
+// ====================================================================
+// Decision sites: code that decides from two serials / two signature times
+// which one is newer.  Every site is driven over the same menu of pairs and
+// judged by the RFC 1982 reference above.
+// ====================================================================
+
+/// Distances of the pair menu: equal, 1, 2, small, quarter, both sides of 2^31, three quarters, just below 2^32.
+const PAIR_DISTANCES: [u32; 14] = [0, 1, 2, 0x1000, 0x4000_0000, 0x7FFF_FFFE, 0x7FFF_FFFF, 0x8000_0000, 0x8000_0001, 0x8000_0002, 0xC000_0000, 0xFFFF_F000, 0xFFFF_FFFE, 0xFFFF_FFFF];
+/// Further start values of the thorough tier.
+const MORE_BASES: [u32; 8] = [2, 0x3FFF_FFFF, 0x4000_0000, 0x7FFF_FFFE, 0x8000_0002, 0xBFFF_FFFF, 0xC000_0000, 0xFFFF_F000];
+
+/// (first, second = first + distance) for every start value on both sides of 0, 2^31 and 2^32.
+fn serial_pairs(deep: bool) -> Vec<(u32, u32)> {
+    let mut v = Vec::new();
+    for &b in USE_BASES.iter().chain(if deep { MORE_BASES.iter() } else { [].iter() }) {
+        for d in PAIR_DISTANCES {
+            v.push((b, b.wrapping_add(d)));
+        }
+    }
+    v.sort();
+    v.dedup();
+    v
+}
+
+/// Does the order of the two values as plain integers agree with their RFC 1982 order?
+fn order_class(a: u32, b: u32) -> &'static str {
+    match reference(a, b) {
+        None => "2^31-apart",
+        Some(o) if o == a.cmp(&b) => "plain-integer-order-agrees",
+        Some(_) => "plain-integer-order-differs",
+    }
+}
+
+fn paused_rt() -> tokio::runtime::Runtime {
+    tokio::runtime::Builder::new_current_thread().enable_time().start_paused(true).build().unwrap()
+}
+
+/// The serial of a SOA RDATA as the independent reader returns it (the five 32-bit fields are its last 20 octets).
+fn soa_serial_of(rdata: &[u8]) -> Option<u32> {
+    let p = rdata.len().checked_sub(20)?;
+    Some(u32::from_be_bytes([rdata[p], rdata[p + 1], rdata[p + 2], rdata[p + 3]]))
+}
+
+/// How a multi-response request ended for its caller.
+#[derive(Debug, PartialEq, Clone, Copy)]
+enum StreamEnd {
+    /// the transport reported the end of the response
+    Finished,
+    /// the transport reported a failure
+    Failed,
+    /// neither within 60 s of virtual time
+    Hang,
+}
+
+/// One IXFR request (question z. IXFR, authority SOA with serial `client`) through the real
+/// `net::client::stream::Connection` over an in-memory connection to a peer that answers with `msgs`
+/// (under the ID of the request) and then keeps the connection open.  tokio's clock is paused: time moves only
+/// when everything waits, so the outcome does not depend on the machine.
+async fn stream_client_exchange(client: u32, msgs: Vec<Vec<u8>>) -> Result<(Vec<Vec<u8>>, StreamEnd), String> {
+    use domain::base::iana::Rtype;
+    use domain::base::MessageBuilder;
+    use domain::net::client::request::{RequestMessage, RequestMessageMulti, SendRequestMulti};
+    use domain::net::client::stream;
+    use mc::zfix::*;
+    use tokio::io::{AsyncReadExt, AsyncWriteExt};
+    let mut q = MessageBuilder::new_vec().question();
+    q.push((zone_apex(), Rtype::IXFR)).map_err(|_| "harness: question".to_string())?;
+    let mut a = q.authority();
+    a.push(record_of(&vec![], &Rd::Soa(client))).map_err(|_| "harness: authority".to_string())?;
+    let req = RequestMessageMulti::new(a.into_message()).map_err(|_| "harness: RequestMessageMulti::new refused the IXFR request".to_string())?;
+    let (cli, mut srv) = tokio::io::duplex(1 << 16);
+    let mut cfg = stream::Config::new();
+    cfg.set_response_timeout(std::time::Duration::from_secs(2));
+    cfg.set_idle_timeout(std::time::Duration::from_secs(1));
+    let (conn, transport) = stream::Connection::<RequestMessage<Vec<u8>>, RequestMessageMulti<Vec<u8>>>::with_config(cli, cfg);
+    let tr = tokio::spawn(transport.run());
+    let sv = tokio::spawn(async move {
+        let mut l = [0u8; 2];
+        if srv.read_exact(&mut l).await.is_err() {
+            return;
+        }
+        let mut req = vec![0u8; u16::from_be_bytes(l) as usize];
+        if srv.read_exact(&mut req).await.is_err() || req.len() < 2 {
+            return;
+        }
+        for m in &msgs {
+            let mut v = m.clone();
+            v[0] = req[0];
+            v[1] = req[1];
+            if srv.write_all(&(v.len() as u16).to_be_bytes()).await.is_err() || srv.write_all(&v).await.is_err() {
+                return;
+            }
+        }
+        // the peer has said all it has to say and keeps the connection open
+        std::future::pending::<()>().await;
+    });
+    let mut got = Vec::new();
+    let mut get = conn.send_request(req);
+    let end = loop {
+        match tokio::time::timeout(std::time::Duration::from_secs(60), get.get_response()).await {
+            Err(_) => break StreamEnd::Hang,
+            Ok(Err(_)) => break StreamEnd::Failed,
+            Ok(Ok(None)) => break StreamEnd::Finished,
+            Ok(Ok(Some(m))) => {
+                got.push(m.as_slice().to_vec());
+                if got.len() > 64 {
+                    break StreamEnd::Failed;
+                }
+            }
+        }
+    };
+    drop(get);
+    drop(conn);
+    sv.abort();
+    tr.abort();
+    let _ = sv.await;
+    let _ = tr.await;
+    Ok((got, end))
+}
+
+/// Use site: the stream client (`net::client::stream`, multi-response IXFR request).  RFC 1995 section 4:
+/// a response whose first message holds nothing but the server's SOA is complete if the server has nothing
+/// newer than the serial in the request; a server with a newer version may equally send its transfer one
+/// record (or a few) per message, so that the same first message is followed by more.  The transport has to
+/// decide between the two from (serial in the request, serial of the server) - by RFC 1982.
+fn part_stream_client(ctx: &Ctx) -> u64 {
+    let pairs = serial_pairs(!ctx.quick());
+    // (rest of the transfer: one record per message / in one message, later messages repeat the question)
+    let shapes: [(bool, bool); 4] = [(true, true), (true, false), (false, true), (false, false)];
+    let n = AtomicU64::new(0);
+    pairs.par_iter().for_each(|&(client, server)| {
+        for (one_per_message, repeat_question) in shapes {
+            n.fetch_add(1, AO::Relaxed);
+            stream_client_case(ctx, client, server, one_per_message, repeat_question);
+        }
+    });
+    n.load(AO::Relaxed)
+}
+
+fn stream_client_case(ctx: &Ctx, client: u32, server: u32, one_per_message: bool, repeat_question: bool) {
+    use domain::base::iana::{Class, Rtype};
+    use domain::base::MessageBuilder;
+    use mc::zfix::*;
+    let want = newer(client, server);
+    {
+        {
+            let case = || json!({"part": "stream-client-lone-soa", "client_serial": client, "server_serial": server, "one_record_per_message": one_per_message, "later_messages_repeat_the_question": repeat_question});
+            let message = |with_question: bool, recs: &[domain::zonetree::types::StoredRecord]| -> Vec<u8> {
+                let mut qb = MessageBuilder::new_vec().question();
+                qb.header_mut().set_qr(true);
+                qb.header_mut().set_aa(true);
+                if with_question {
+                    qb.push((zone_apex(), Rtype::IXFR, Class::IN)).unwrap();
+                }
+                let mut ab = qb.answer();
+                for r in recs {
+                    ab.push(r.clone()).unwrap();
+                }
+                ab.finish()
+            };
+            let soa = |s: u32| record_of(&vec![], &Rd::Soa(s));
+            let a = |k: u8| record_of(&rel("a"), &Rd::A(k));
+            // SOA(server) | SOA(client) -A SOA(server) +A SOA(server)
+            let rest = [soa(client), a(10), soa(server), a(11), soa(server)];
+            let mut all = vec![message(true, &[soa(server)])];
+            if one_per_message {
+                for r in &rest {
+                    all.push(message(repeat_question, std::slice::from_ref(r)));
+                }
+            } else {
+                all.push(message(repeat_question, &rest));
+            }
+            // a server that has nothing newer sends its SOA and nothing else
+            let sent: Vec<Vec<u8>> = if want == Some(false) { all[..1].to_vec() } else { all.clone() };
+            let r = guard(|| paused_rt().block_on(stream_client_exchange(client, sent.clone())));
+            let (got, end) = match r {
+                Err(p) => {
+                    ctx.violation(&format!("C17|stream-client-ixfr|panic|{}", panic_class(&p)), &p, case());
+                    return;
+                }
+                Ok(Err(e)) => {
+                    eprintln!("MACHINERY: {e}");
+                    std::process::exit(2);
+                }
+                Ok(Ok(x)) => x,
+            };
+            let same = |k: usize| got.len() == k && (0..k).all(|i| got[i].len() >= 2 && got[i][2..] == sent[i][2..]);
+            let whole = same(sent.len()) && end == StreamEnd::Finished;
+            let first_only = same(1) && end == StreamEnd::Finished;
+            let ok = match want {
+                Some(true) => whole,
+                Some(false) => first_only,
+                None => whole || first_only,
+            };
+            if ok {
+                return;
+            }
+            let server_is = match want {
+                Some(true) => "newer",
+                Some(false) => "not-newer",
+                None => "2^31-apart",
+            };
+            let observed = if first_only {
+                "response-declared-complete-after-the-first-message".to_string()
+            } else if same(got.len().min(sent.len())) && got.len() <= sent.len() {
+                format!(
+                    "{}-after-{}",
+                    match end {
+                        StreamEnd::Finished => "end",
+                        StreamEnd::Failed => "failure",
+                        StreamEnd::Hang => "hang",
+                    },
+                    if got.len() == sent.len() { "all-messages" } else if got.len() == 1 { "the-first-message" } else { "some-messages" }
+                )
+            } else {
+                "messages-delivered-are-not-the-messages-sent".to_string()
+            };
+            ctx.violation(
+                &format!("C17|stream-client-ixfr|first-message-holds-only-the-soa|server-{server_is}|{observed}|{}", order_class(client, server)),
+                &format!(
+                    "IXFR request with serial {client}, server at serial {server} (RFC 1982: server newer = {want:?}); the peer sent {} message(s), the first holding only its SOA, and kept the connection open; the caller got {} message(s), then {end:?}; expected {}",
+                    sent.len(),
+                    got.len(),
+                    match want {
+                        Some(true) => "all messages, then the end of the response",
+                        Some(false) => "the one message, then the end of the response without waiting for more",
+                        None => "either of the two",
+                    }
+                ),
+                case(),
+            );
+        }
+    }
+}
+
+mod xfr_site {
+    //! The pieces around the real `XfrMiddlewareSvc`: a provider that hands out the zone and the diffs it
+    //! keeps, and a next service that must never be reached.
+    use domain::base::Serial;
+    use domain::net::server::message::Request;
+    use domain::net::server::middleware::xfr::{XfrData, XfrDataProvider, XfrDataProviderError};
+    use domain::net::server::service::{Service, ServiceError, ServiceResult};
+    use domain::zonetree::{InMemoryZoneDiff, Zone};
+    use std::future::Future;
+    use std::pin::Pin;
+    use std::sync::Arc;
+
+    #[derive(Clone)]
+    pub struct Provider {
+        pub zone: Zone,
+        pub diffs: Vec<Arc<InMemoryZoneDiff>>,
+    }
+
+    impl<M> XfrDataProvider<M> for Provider {
+        type Diff = Arc<InMemoryZoneDiff>;
+        fn request<Octs>(&self, _req: &Request<Octs, M>, diff_from: Option<Serial>) -> Pin<Box<dyn Future<Output = Result<XfrData<Self::Diff>, XfrDataProviderError>> + Sync + Send + '_>>
+        where
+            Octs: octseq::Octets + Send + Sync,
+        {
+            // (hands out the history it keeps whenever differences are asked for; it does no serial arithmetic of its own)
+            let diffs = if diff_from.is_some() { self.diffs.clone() } else { vec![] };
+            Box::pin(std::future::ready(Ok(XfrData::new(self.zone.clone(), diffs, false))))
+        }
+    }
+
+    #[derive(Clone)]
+    pub struct NoSvc;
+
+    impl<M: Clone + Default + Send + Sync + 'static> Service<Vec<u8>, M> for NoSvc {
+        type Target = Vec<u8>;
+        type Stream = futures_util::stream::Once<std::future::Ready<ServiceResult<Vec<u8>>>>;
+        type Future = std::future::Ready<Self::Stream>;
+        fn call(&self, _r: Request<Vec<u8>, M>) -> Self::Future {
+            std::future::ready(futures_util::stream::once(std::future::ready(Err(ServiceError::Refused))))
+        }
+    }
+}
+
+/// Use site: the sender of incremental transfers (`net::server::middleware::xfr`).  RFC 1995 section 2: "If an
+/// IXFR query with the same or newer version number than that of the server is received, it is replied to with
+/// a single SOA record of the server's current version"; a client whose version is older gets the transfer
+/// (section 4: difference sequences or the entire zone, first and last record the server's SOA).
+fn part_xfr_server(ctx: &Ctx) -> u64 {
+    let pairs = serial_pairs(!ctx.quick());
+    let n = AtomicU64::new(0);
+    pairs.par_iter().for_each(|&(client, server)| {
+        for udp in [false, true] {
+            n.fetch_add(1, AO::Relaxed);
+            xfr_server_case(ctx, client, server, udp);
+        }
+    });
+    n.load(AO::Relaxed)
+}
+
+fn xfr_server_case(ctx: &Ctx, client: u32, server: u32, udp: bool) {
+    use domain::base::iana::Rtype;
+    use domain::base::MessageBuilder;
+    use domain::net::server::message::{NonUdpTransportContext, Request, TransportSpecificContext, UdpTransportContext};
+    use domain::net::server::middleware::xfr::XfrMiddlewareSvc;
+    use domain::net::server::service::Service;
+    use futures_util::StreamExt;
+    use mc::zfix::*;
+    use std::sync::Arc;
+    let want = newer(client, server);
+    // the server's history: one step, from the client's version if that is older, else from the version before
+    let start = if want == Some(true) { client } else { server.wrapping_sub(1) };
+    {
+        {
+            let case = || json!({"part": "xfr-server-ixfr", "client_serial": client, "server_serial": server, "history_from": start, "udp": udp});
+            let r = guard(|| {
+                paused_rt().block_on(async {
+                    let mut c = Content::base(start);
+                    c.add("a", Rd::A(10));
+                    let zone = build_direct(&c, false);
+                    let diff = {
+                        let mut w = zone.write().await;
+                        let apex = w.open(true).await.map_err(|e| ("harness".to_string(), format!("open: {e}")))?;
+                        let node = node_for(apex.as_ref(), &rel("a")).await.unwrap();
+                        node.update_rrset(rrset_of(&[Rd::A(11)])).await.map_err(|e| ("harness".to_string(), format!("update_rrset: {e}")))?;
+                        apex.update_rrset(rrset_of(&[Rd::Soa(server)])).await.map_err(|e| ("harness".to_string(), format!("update_rrset(soa): {e}")))?;
+                        drop(node);
+                        drop(apex);
+                        w.commit(false).await.map_err(|e| ("harness".to_string(), format!("commit: {e}")))?
+                    };
+                    let Some(diff) = diff else {
+                        return Err(("no-diff-from-a-commit-to-a-newer-serial".to_string(), format!("the commit from serial {start} to serial {server} made no diff")));
+                    };
+                    let svc = XfrMiddlewareSvc::<Vec<u8>, xfr_site::NoSvc, (), xfr_site::Provider>::new(xfr_site::NoSvc, xfr_site::Provider { zone, diffs: vec![Arc::new(diff)] }, 1);
+                    let mut q = MessageBuilder::new_vec().question();
+                    q.header_mut().set_id(0x4242);
+                    q.push((zone_apex(), Rtype::IXFR)).unwrap();
+                    let mut a = q.authority();
+                    a.push(record_of(&vec![], &Rd::Soa(client))).unwrap();
+                    let tctx: TransportSpecificContext = if udp { UdpTransportContext::new(None).into() } else { NonUdpTransportContext::new(None).into() };
+                    let request = Request::new("192.0.2.1:5300".parse().unwrap(), tokio::time::Instant::now(), a.into_message(), tctx, ());
+                    let mut msgs: Vec<Vec<u8>> = Vec::new();
+                    let collect = async {
+                        let mut stream = svc.call(request).await;
+                        while let Some(item) = stream.next().await {
+                            match item {
+                                Ok(cr) => {
+                                    if let (Some(r), _) = cr.into_inner() {
+                                        msgs.push(r.finish().as_dgram_slice().to_vec());
+                                    }
+                                }
+                                Err(_) => return Err(("service-error".to_string(), "the response stream yielded a service error".to_string())),
+                            }
+                        }
+                        Ok(())
+                    };
+                    match tokio::time::timeout(std::time::Duration::from_secs(30), collect).await {
+                        Err(_) => return Err(("response-stream-never-ends".to_string(), "no end of the response stream within 30 s of virtual time".to_string())),
+                        Ok(r) => r?,
+                    }
+                    Ok::<_, (String, String)>(msgs)
+                })
+            });
+            let server_is = match want {
+                Some(true) => "newer",
+                Some(false) => "not-newer",
+                None => "2^31-apart",
+            };
+            let msgs = match r {
+                Err(p) => {
+                    ctx.violation(&format!("C17|xfr-server-ixfr|panic|{}", panic_class(&p)), &p, case());
+                    return;
+                }
+                Ok(Err((kind, what))) if kind == "harness" => {
+                    eprintln!("MACHINERY: xfr-server part: {what}");
+                    std::process::exit(2);
+                }
+                Ok(Err((kind, what))) => {
+                    ctx.violation(&format!("C17|xfr-server-ixfr|{kind}|server-{server_is}|{}", order_class(client, server)), &format!("{what} [client serial {client}, server serial {server}]"), case());
+                    return;
+                }
+                Ok(Ok(m)) => m,
+            };
+            // read the response with the independent reader
+            let mut answer: Vec<(u16, Option<u32>)> = Vec::new();
+            let mut bad: Option<String> = None;
+            for m in &msgs {
+                match mc::wire::read_message(m) {
+                    Ok(raw) => {
+                        if raw.flags & 0x000F != 0 {
+                            bad = Some(format!("error-response-rcode-{}", raw.flags & 0x000F));
+                        }
+                        for rec in &raw.sections[0] {
+                            answer.push((rec.rtype, if rec.rtype == 6 { soa_serial_of(&rec.rdata) } else { None }));
+                        }
+                    }
+                    Err(_) => bad = Some("unreadable-message".into()),
+                }
+            }
+            let is_server_soa = |x: Option<&(u16, Option<u32>)>| x == Some(&(6u16, Some(server)));
+            let lone_soa = answer.len() == 1 && is_server_soa(answer.first());
+            let framed = answer.len() >= 3 && is_server_soa(answer.first()) && is_server_soa(answer.last());
+            let incremental = framed && answer[1].0 == 6;
+            let observed = match &bad {
+                Some(b) => b.clone(),
+                None if lone_soa => "single-soa".into(),
+                None if incremental => "difference-sequences".into(),
+                None if framed => "entire-zone".into(),
+                None => "neither-a-single-soa-nor-a-transfer-framed-by-the-server-soa".into(),
+            };
+            let ok = bad.is_none()
+                && match want {
+                    // the client has nothing to fetch: the single SOA (or, where a server cannot tell, the entire zone), never differences
+                    Some(false) => lone_soa || (framed && !incremental),
+                    Some(true) => framed,
+                    None => lone_soa || framed,
+                };
+            if !ok {
+                ctx.violation(
+                    &format!("C17|xfr-server-ixfr|server-{server_is}|answered-with-{observed}|{}", order_class(client, server)),
+                    &format!(
+                        "IXFR request with serial {client} to a server at serial {server} holding the difference {start} -> {server} (RFC 1982: server newer = {want:?}) over {}: {} message(s), answer records (type, SOA serial) {:?}",
+                        if udp { "UDP" } else { "TCP" },
+                        msgs.len(),
+                        answer
+                    ),
+                    case(),
+                );
+            }
+        }
+    }
+}
+
+/// Use site: the signer's check of the validity period (`dnssec::sign::signatures::rrsigs`).  RFC 4034 3.1.5:
+/// inception and expiration are serial numbers; a period is the wrong way round iff the expiration is older than
+/// the inception BY RFC 1982 - a period that spans 2^31 or the 2^32 wrap is as good as any other and the
+/// signature must carry the two times as given.
+fn part_signer_validity(ctx: &Ctx, only: Option<(u32, u32)>) -> u64 {
+    use domain::base::iana::Class;
+    use domain::base::{Name, Record, Ttl};
+    use domain::crypto::sign::{KeyPair, SecretKeyBytes};
+    use domain::dnssec::common::parse_from_bind;
+    use domain::dnssec::sign::keys::SigningKey;
+    use domain::dnssec::sign::records::Rrset;
+    use domain::dnssec::sign::signatures::rrsigs::sign_rrset;
+    use domain::rdata::A;
+    let base = "/repo/test-data/dnssec-keys/Ktest.+015+56037";
+    let (Ok(pubt), Ok(sect)) = (std::fs::read_to_string(format!("{base}.key")), std::fs::read_to_string(format!("{base}.private"))) else {
+        eprintln!("MACHINERY: key files {base}.* not readable");
+        std::process::exit(2);
+    };
+    let rec = parse_from_bind::<Vec<u8>>(&pubt).expect("MACHINERY: .key");
+    let secret = SecretKeyBytes::parse_from_bind(&sect).expect("MACHINERY: .private");
+    let dnskey = rec.data().clone();
+    let kp = KeyPair::from_bytes(&secret, &dnskey).expect("MACHINERY: key pair");
+    let owner: Name<bytes::Bytes> = Name::from_octets(bytes::Bytes::from_static(b"\x04test\x00")).unwrap();
+    let key: SigningKey<bytes::Bytes, KeyPair> = SigningKey::new(owner.clone(), dnskey.flags(), kp);
+    let recs = vec![Record::new(owner.clone(), Class::IN, Ttl::from_secs(300), A::from_octets(192, 0, 2, 1))];
+    let pairs = match only {
+        Some(p) => vec![p],
+        None => serial_pairs(!ctx.quick()),
+    };
+    let n = pairs.len() as u64;
+    pairs.par_iter().for_each(|&(inception, expiration)| {
+        let case = || json!({"part": "signer-validity-period", "inception": inception, "expiration": expiration});
+        // expiration vs inception
+        let want = reference(expiration, inception);
+        let r = guard(|| {
+            let rrset = Rrset::new_from_owned(&recs).expect("MACHINERY: rrset");
+            sign_rrset(&key, &rrset, Timestamp::from(inception), Timestamp::from(expiration)).map(|sig| (sig.data().inception().into_int(), sig.data().expiration().into_int())).map_err(|_| ())
+        });
+        let cls = order_class(inception, expiration);
+        match (r, want) {
+            (Err(p), _) => {
+                ctx.violation(&format!("C17|signer-validity|panic|{}", panic_class(&p)), &p, case());
+            }
+            (Ok(Ok(got)), w) => {
+                if w == Some(Ordering::Less) {
+                    ctx.violation(&format!("C17|signer-validity|signed-although-expiration-is-older-than-inception|{cls}"), &format!("sign_rrset made a signature valid from {inception} to {expiration}; by RFC 1982 the expiration is older than the inception"), case());
+                } else if got != (inception, expiration) {
+                    ctx.violation(&format!("C17|signer-validity|signature-carries-other-times|{cls}"), &format!("asked for {inception}..{expiration}, the RRSIG says {}..{}", got.0, got.1), case());
+                }
+            }
+            (Ok(Err(())), w) => {
+                if matches!(w, Some(Ordering::Greater | Ordering::Equal)) {
+                    ctx.violation(&format!("C17|signer-validity|refused-although-expiration-is-not-older-than-inception|{cls}"), &format!("sign_rrset refused the validity period {inception}..{expiration}; by RFC 1982 the expiration is {} the inception", if w == Some(Ordering::Equal) { "equal to" } else { "newer than" }), case());
+                }
+            }
+        }
+    });
+    n
+}
+
+/// Use site: the validity window of a server cookie (`new::edns::Cookie::verify`, RFC 9018 4.3: the timestamp is a
+/// serial number).  A cookie made for timestamp t (by the established `base::opt::cookie` code, same interoperable
+/// format) is checked against the window [from, from + length): it is inside iff `from` is not newer than t and
+/// from + length is newer than t - by RFC 1982, wherever in the 32-bit space the window lies.
+fn part_cookie_window(ctx: &Ctx, only: Option<(u32, u32, u32)>) -> u64 {
+    use domain::base::opt::cookie as old;
+    use domain::new::base::wire::ParseBytesZC;
+    use domain::new::base::Serial as NSerial;
+    use domain::new::edns::Cookie as NCookie;
+    let ip: std::net::IpAddr = "192.0.2.7".parse().unwrap();
+    let secret = [0x5Au8; 16];
+    let lengths: [u32; 5] = [1, 300, 3900, 0x4000_0000, 0x7FFF_FFFF];
+    let cases: Vec<(u32, u32, u32)> = match only {
+        Some(c) => vec![c],
+        None => serial_pairs(!ctx.quick()).into_iter().flat_map(|(from, t)| lengths.into_iter().map(move |l| (from, t, l))).collect(),
+    };
+    let n = cases.len() as u64;
+    cases.par_iter().for_each(|&(from, t, length)| {
+        let until = from.wrapping_add(length);
+        let case = || json!({"part": "cookie-window", "from": from, "timestamp": t, "length": length});
+        let r = guard(|| {
+            let made = old::Cookie::new(old::ClientCookie::from([1, 2, 3, 4, 5, 6, 7, 8]), None).create_response(Serial::from(t), ip, &secret);
+            let mut octets = made.client().as_ref().to_vec();
+            octets.extend_from_slice(made.server().map(|s| s.as_ref()).unwrap_or(&[]));
+            let Ok(c) = NCookie::parse_bytes_by_ref(&octets) else {
+                return Err(());
+            };
+            let inside = c.verify(ip, &secret, NSerial::new(from)..NSerial::new(until)).is_ok();
+            // control: the cookie itself is good (window around its own timestamp)
+            let control = c.verify(ip, &secret, NSerial::new(t)..NSerial::new(t.wrapping_add(1))).is_ok();
+            Ok((inside, control, c.timestamp().get()))
+        });
+        let (lower, upper) = (reference(from, t), reference(t, until));
+        match r {
+            Err(p) => {
+                ctx.violation(&format!("C17|cookie-window|panic|{}", panic_class(&p)), &p, case());
+            }
+            Ok(Err(())) => {
+                ctx.violation("C17|cookie-window|interoperable-cookie-not-readable", "a 24-octet version 1 cookie made by base::opt::cookie is not read by new::edns::Cookie", case());
+            }
+            Ok(Ok((_, control, ts))) if !control || ts != t => {
+                ctx.violation("C17|cookie-window|cookie-not-valid-in-the-window-of-its-own-timestamp", &format!("cookie made for timestamp {t} (read back as {ts}) is rejected for the window [{t}, {t}+1)"), case());
+            }
+            Ok(Ok((inside, _, _))) => {
+                if let (Some(lo), Some(up)) = (lower, upper) {
+                    let want = lo != Ordering::Greater && up == Ordering::Less;
+                    if inside != want {
+                        let cls = if order_class(from, t) == "plain-integer-order-differs" || order_class(t, until) == "plain-integer-order-differs" { "plain-integer-order-differs" } else { "plain-integer-order-agrees" };
+                        ctx.violation(
+                            &format!("C17|cookie-window|{}|{cls}", if want { "rejected-inside-the-window" } else { "accepted-outside-the-window" }),
+                            &format!("cookie with timestamp {t}, window [{from}, {until}): RFC 1982 says from vs t = {lo:?}, t vs end = {up:?}, so inside = {want}; verify says {inside}"),
+                            case(),
+                        );
+                    }
+                }
+            }
+        }
+    });
+    n
+}
+
+/// The serial number type of the new base (`new::base::Serial`) is a second implementation of the same
+/// arithmetic: comparison, operators and `inc` against the RFC 1982 reference for one pair.
+#[inline]
+fn new_api_pair(b: u32, c: u32) -> Option<(&'static str, String)> {
+    use domain::new::base::Serial as NSerial;
+    let (nb, nc) = (NSerial::new(b), NSerial::new(c));
+    let r = reference(b, c);
+    let got = nb.partial_cmp(&nc);
+    if got != r {
+        return Some(("cmp-vs-rfc1982", format!("new::base::Serial partial_cmp({b},{c})={got:?}, RFC 1982 says {r:?}")));
+    }
+    let rev = nc.partial_cmp(&nb);
+    if rev != r.map(Ordering::reverse) {
+        return Some(("antisymmetry", format!("new::base::Serial partial_cmp({c},{b})={rev:?} but partial_cmp({b},{c})={got:?}")));
+    }
+    if (nb < nc) != (r == Some(Ordering::Less)) || (nb > nc) != (r == Some(Ordering::Greater)) || (nb <= nc) != matches!(r, Some(Ordering::Less | Ordering::Equal)) || (nb >= nc) != matches!(r, Some(Ordering::Greater | Ordering::Equal)) || (nb == nc) != (b == c) {
+        return Some(("operators", format!("new::base::Serial <,>,<=,>=,== of ({b},{c}) disagree with RFC 1982 {r:?}")));
+    }
+    // c as the amount to add
+    if c <= 0x7FFF_FFFF {
+        let s = nb.inc(c as i32);
+        if s.get() != b.wrapping_add(c) {
+            return Some(("add-value", format!("new::base::Serial {b}.inc({c}) = {}", s.get())));
+        }
+        if c >= 1 && !(s > nb && nb < s && s.partial_cmp(&nb) == Some(Ordering::Greater)) {
+            return Some(("add-not-greater", format!("new::base::Serial {b}.inc({c}) = {} is not greater than {b}", s.get())));
+        }
+        if c == 0 && s != nb {
+            return Some(("add-zero", format!("new::base::Serial {b}.inc(0) != {b}")));
+        }
+    }
+    None
+}
+
+/// `new::base::Serial` over a dense grid (quick) - in the thorough tier it also rides along with the full sweep.
+fn part_new_api_grid(ctx: &Ctx) -> u64 {
+    let bases: [u32; 14] = [0, 1, 0x7FFF_FFFF, 0x8000_0000, 0x8000_0001, 0xFFFF_FFFF, 0xFFFF_FFFE, 0x1234_5679, 0xDEAD_BEEF, 0x7FFF_FFFE, 0x4000_0001, 0xC000_0003, 0x00FF_FF01, 0xFF00_00FF];
+    let mut others: Vec<u32> = (0..65536u32).map(|k| k.wrapping_mul(65537)).collect();
+    for c in [0u32, 0x4000_0000, 0x8000_0000, 0xC000_0000] {
+        for d in 0..=8u32 {
+            others.push(c.wrapping_add(d).wrapping_sub(4));
+        }
+    }
+    others.sort();
+    others.dedup();
+    let n = AtomicU64::new(0);
+    bases.par_iter().for_each(|&b| {
+        let mut first: Option<(&'static str, String, u32)> = None;
+        // c both as the other value (relative to b) and as the amount to add
+        for &d in &others {
+            for c in [d, b.wrapping_add(d)] {
+                n.fetch_add(1, AO::Relaxed);
+                match guard(|| new_api_pair(b, c)) {
+                    Ok(None) => {}
+                    Ok(Some((sig, what))) => {
+                        first.get_or_insert((sig, what, c));
+                    }
+                    Err(p) => {
+                        first.get_or_insert(("panic", p, c));
+                    }
+                }
+            }
+        }
+        if let Some((sig, what, c)) = first {
+            ctx.violation(&format!("C17|new-base-serial|{sig}"), &what, json!({"part": "new-base-serial", "base": b, "other": c}));
+        }
+        // inc() must panic for a negative amount (documented)
+        for a in [-1i32, i32::MIN] {
+            n.fetch_add(1, AO::Relaxed);
+            if let Ok(v) = guard(|| domain::new::base::Serial::new(b).inc(a)) {
+                ctx.violation("C17|new-base-serial|add-precondition", &format!("new::base::Serial {b}.inc({a}) returned {} instead of panicking as documented", v.get()), json!({"part": "new-base-serial", "base": b, "addend": a}));
+            }
+        }
+    });
+    n.load(AO::Relaxed)
+}
+
 fn days_from_civil(y: i64, m: i64, d: i64) -> i64 {
     // proleptic Gregorian calendar, days since 1970-01-01
     let y = if m <= 2 { y - 1 } else { y };
@@ -386,6 +1011,32 @@ fn main() {
         println!("replaying {}", v["signature"]);
         if let Some(t) = c["text"].as_str() {
             println!("Timestamp::from_str({t:?}) = {:?}", guard(|| Timestamp::from_str(t).map(|x| x.into_int()).ok()));
+        } else if c["part"] == "stream-client-lone-soa" {
+            let u = |k: &str| c[k].as_u64().expect("replay field") as u32;
+            let (cl, sv) = (u("client_serial"), u("server_serial"));
+            println!("RFC 1982: server serial {sv} newer than the request's serial {cl} = {:?}", newer(cl, sv));
+            stream_client_case(&ctx, cl, sv, c["one_record_per_message"].as_bool().unwrap(), c["later_messages_repeat_the_question"].as_bool().unwrap());
+        } else if c["part"] == "xfr-server-ixfr" {
+            let u = |k: &str| c[k].as_u64().expect("replay field") as u32;
+            let (cl, sv) = (u("client_serial"), u("server_serial"));
+            println!("RFC 1982: server serial {sv} newer than the request's serial {cl} = {:?}", newer(cl, sv));
+            xfr_server_case(&ctx, cl, sv, c["udp"].as_bool().unwrap());
+        } else if c["part"] == "signer-validity-period" {
+            let u = |k: &str| c[k].as_u64().expect("replay field") as u32;
+            println!("RFC 1982: expiration vs inception = {:?}", reference(u("expiration"), u("inception")));
+            part_signer_validity(&ctx, Some((u("inception"), u("expiration"))));
+        } else if c["part"] == "cookie-window" {
+            let u = |k: &str| c[k].as_u64().expect("replay field") as u32;
+            println!("RFC 1982: from vs timestamp = {:?}, timestamp vs end = {:?}", reference(u("from"), u("timestamp")), reference(u("timestamp"), u("from").wrapping_add(u("length"))));
+            part_cookie_window(&ctx, Some((u("from"), u("timestamp"), u("length"))));
+        } else if c["part"] == "new-base-serial" {
+            let b = c["base"].as_u64().unwrap() as u32;
+            if let Some(o) = c["other"].as_u64() {
+                println!("RFC 1982 {:?}; new::base::Serial: {:?}", reference(b, o as u32), guard(|| new_api_pair(b, o as u32)));
+            } else {
+                let a = c["addend"].as_i64().unwrap() as i32;
+                println!("new::base::Serial {b}.inc({a}) = {:?}", guard(|| domain::new::base::Serial::new(b).inc(a).get()));
+            }
         } else if c["part"] == "zone-diff" {
             let (b, e) = (c["start"].as_u64().unwrap() as u32, c["end"].as_u64().unwrap() as u32);
             println!("RFC 1982: end newer than start = {:?}; Serial({b}).partial_cmp(Serial({e})) = {:?}", newer(b, e), Serial::from(b).partial_cmp(&Serial::from(e)));
@@ -399,6 +1050,13 @@ fn main() {
             let st = Timestamp::from(o).to_system_time(std::time::UNIX_EPOCH + std::time::Duration::from_secs((1u64 << 32) + b as u64));
             println!("Timestamp({o}).to_system_time(2^32+{b}) = {:?}", st.duration_since(std::time::UNIX_EPOCH).map(|d| d.as_secs()));
         }
+        ctx.finish_quiet();
+    }
+    if std::env::var("C17_SITES_ONLY").is_ok() {
+        // development aid: only the use-site parts, no sweep, no evidence file
+        let t = std::time::Instant::now();
+        let counts = [part_diff_direction(&ctx), part_text_forms(&ctx), part_ixfr_across_the_wrap(&ctx), part_commit_bump(&ctx), part_stream_client(&ctx), part_xfr_server(&ctx), part_signer_validity(&ctx, None), part_new_api_grid(&ctx), part_cookie_window(&ctx, None)];
+        println!("use-site parts only: cases {counts:?} in {:.1} s", t.elapsed().as_secs_f64());
         ctx.finish_quiet();
     }
     let bases: Vec<u32> = if ctx.quick() {
@@ -415,6 +1073,7 @@ fn main() {
     let outcomes = [AtomicU64::new(0), AtomicU64::new(0), AtomicU64::new(0), AtomicU64::new(0)];
     let stats = Stats::new();
     const CHUNK: u64 = 1 << 22;
+    let deep = !ctx.quick();
     for (bi, &b) in bases.iter().enumerate() {
         // quick: one era per base (both eras are swept, over different bases); thorough: both for every base
         let eras: Vec<u64> = if ctx.quick() { vec![(bi as u64 + 1) % 2] } else { vec![0, 1] };
@@ -480,6 +1139,12 @@ fn main() {
                         viol.get_or_insert(("to_system_time-too-far-from-reference".into(), format!("Timestamp({c}).to_system_time(reference {refsecs}) = {got}: distance {dist} does not fit an i32"), c));
                     }
                 }
+                // the serial type of the new base (thorough tier; the quick tier covers it over a grid)
+                if deep {
+                    if let Some((sig, what)) = new_api_pair(b, c) {
+                        viol.get_or_insert((format!("new-base-serial|{sig}"), what, c));
+                    }
+                }
                 // invariance under adding the same amount to both sides
                 for k in ks {
                     let (b2, c2) = (b.wrapping_add(k), c.wrapping_add(k));
@@ -525,8 +1190,12 @@ fn main() {
     }
     let (diff_cases, text_cases) = (part_diff_direction(&ctx), part_text_forms(&ctx));
     let (ixfr_cases, bump_cases) = (part_ixfr_across_the_wrap(&ctx), part_commit_bump(&ctx));
-    evals.fetch_add(diff_cases + text_cases + ixfr_cases + bump_cases, AO::Relaxed);
-    nontriv.fetch_add(diff_cases + text_cases + ixfr_cases + bump_cases, AO::Relaxed);
+    let (client_cases, server_cases) = (part_stream_client(&ctx), part_xfr_server(&ctx));
+    let (signer_cases, new_api_cases) = (part_signer_validity(&ctx, None), part_new_api_grid(&ctx));
+    let cookie_cases = part_cookie_window(&ctx, None);
+    let site_cases = diff_cases + text_cases + ixfr_cases + bump_cases + client_cases + server_cases + signer_cases + new_api_cases + cookie_cases;
+    evals.fetch_add(site_cases, AO::Relaxed);
+    nontriv.fetch_add(site_cases, AO::Relaxed);
     let e = evals.load(AO::Relaxed);
     ctx.finish(
         json!({
@@ -535,7 +1204,7 @@ fn main() {
             "rule": "pairs (base, c) for every c in 0..2^32 per base; every pair is distinct by construction; non-trivial = c != base (counted per chunk)",
             "exhaustive": true,
             "bases": bases,
-            "use_sites": {"zone_diff_direction_cases": diff_cases, "signature_time_text_cases": text_cases, "ixfr_chains": ixfr_cases, "commit_bumps": bump_cases, "rule": "IXFR: for 12 start serials on both sides of 0, 2^31 and 2^32 x 6 chains of 1-3 difference sequences (steps 1, 2, 2^31-16, 2^31-1) the response is built, interpreted by XfrResponseInterpreter (batches reported with the serials sent) and applied by ZoneUpdater to a zone at the first serial (ends at the last version); commit(true): 4 successive serial-bumping commits from each start serial publish the RFC 1982 successor each time; zone diffs: InMemoryZoneDiffBuilder::build for start = base, end = base + d over 14 bases x a dense offset grid (every multiple of 65537 and +-2 around 0, 2^31, 2^32): a diff is made iff end is newer than start by RFC 1982 (2^31 apart: either), with start/end serials as given; signature times in text: every calendar day 1970-01-01..2500-12-31 at 00:00:00 and 23:59:59, every second +-3 around k*2^31 (k = 1..8), Jan 1/Dec 31 of years 1971..9998 step 97, all month x day combinations of a leap and a non-leap year, hour/minute/second edge values, and integer forms at the u32 boundaries, through Timestamp::from_str and Timestamp::scan: value == seconds since the epoch mod 2^32 (own civil-date arithmetic), invalid dates rejected, integers above 2^32-1 rejected; Timestamp::to_system_time for references in the first two 2^32-second eras for all 2^32 timestamps"},
+            "use_sites": {"zone_diff_direction_cases": diff_cases, "signature_time_text_cases": text_cases, "ixfr_chains": ixfr_cases, "commit_bumps": bump_cases, "stream_client_lone_soa_cases": client_cases, "xfr_server_ixfr_cases": server_cases, "signer_validity_periods": signer_cases, "new_base_serial_pairs": new_api_cases, "cookie_windows": cookie_cases, "serial_pair_menu": {"pairs": serial_pairs(!ctx.quick()).len(), "rule": "(first, first + d) for first on both sides of 0, 2^31 and 2^32 (12 values; thorough: 20) and d in {0, 1, 2, 2^12, 2^30, 2^31-2, 2^31-1, 2^31, 2^31+1, 2^31+2, 3*2^30, 2^32-2^12, 2^32-2, 2^32-1}"}, "decision_sites_rule": "every decision site is judged by the RFC 1982 reference of the harness over the serial pair menu. stream client (net::client::stream, RequestMessageMulti IXFR with the first serial in the authority SOA, mock peer on an in-memory connection under tokio's paused clock, response timeout 2 s): the peer at the second serial answers with a first message holding only its SOA, followed - unless it has nothing newer - by the difference sequence (one record per message or all in one, later messages with or without the question) and keeps the connection open; server newer: all messages are delivered, then the end of the response; not newer (equal or older): the one message, then the end, no waiting (a failure or no end within 60 s of virtual time is a violation); 2^31 apart: either. XFR sender (XfrMiddlewareSvc over TCP and UDP, provider handing out the zone and the one difference it keeps, history_from -> server serial): client same or newer: a single SOA of the server's serial (or the entire zone), never difference sequences; client older: a transfer of at least 3 records framed by the server's SOA; 2^31 apart: either; responses read by the independent wire reader. signer (sign_rrset, Ed25519 test key): first = inception, second = expiration: expiration not older than inception: signed, RRSIG carries both times as given; older: refused; 2^31 apart: either. new::base::Serial (the serial type of the new base): partial_cmp both ways, <,>,<=,>=,==, inc(c) value and strictly-greater, for 14 bases x (every multiple of 65537 and +-4 around 0, 2^30, 2^31, 3*2^30), c taken both as absolute value and as distance from the base; inc() of a negative amount panics; in the thorough tier it rides along with the full sweep. cookie window (new::edns::Cookie::verify with an explicit Range of serials; the cookie is made for the second value of the pair by base::opt::cookie, the window starts at the first value and is 1 s, 300 s, 3900 s, 2^30 s or 2^31-1 s long): accepted iff the start is not newer than the timestamp and the end is newer (skipped where one of the two comparisons is undefined); control: every cookie is accepted for the window [t, t+1). Not driven: net::server::middleware::cookies (reads the wall clock, no hook; at today's wall-clock value no pair distinguishes serial from plain integer comparison), the validator's signature-time checks (driven by C14 over its wrap clocks), zonetree's internal Version counter (starts at 0, +1 per commit)", "rule": "IXFR: for 12 start serials on both sides of 0, 2^31 and 2^32 x 6 chains of 1-3 difference sequences (steps 1, 2, 2^31-16, 2^31-1) the response is built, interpreted by XfrResponseInterpreter (batches reported with the serials sent) and applied by ZoneUpdater to a zone at the first serial (ends at the last version); commit(true): 4 successive serial-bumping commits from each start serial publish the RFC 1982 successor each time; zone diffs: InMemoryZoneDiffBuilder::build for start = base, end = base + d over 14 bases x a dense offset grid (every multiple of 65537 and +-2 around 0, 2^31, 2^32): a diff is made iff end is newer than start by RFC 1982 (2^31 apart: either), with start/end serials as given; signature times in text: every calendar day 1970-01-01..2500-12-31 at 00:00:00 and 23:59:59, every second +-3 around k*2^31 (k = 1..8), Jan 1/Dec 31 of years 1971..9998 step 97, all month x day combinations of a leap and a non-leap year, hour/minute/second edge values, and integer forms at the u32 boundaries, through Timestamp::from_str and Timestamp::scan: value == seconds since the epoch mod 2^32 (own civil-date arithmetic), invalid dates rejected, integers above 2^32-1 rejected; Timestamp::to_system_time for references in the first two 2^32-second eras for all 2^32 timestamps"},
             "outcome_counts": {"less": outcomes[0].load(AO::Relaxed), "equal": outcomes[1].load(AO::Relaxed), "greater": outcomes[2].load(AO::Relaxed), "undefined": outcomes[3].load(AO::Relaxed)},
             "samples": stats.samples(),
         }),
